@@ -61,9 +61,9 @@ L = typing.Literal
 
 LEAVES = {
     "int": (int, [0, 1, -1, 2 ** 63, -2 ** 63 - 1], "int"),
-    "float": (float, [0.0, -0.0, 1.5, -2.25, 1e-7, 1e300], "float"),
+    "float": (float, [0.0, -0.0, 1.5, -2.25, 1e-7, 1e300, 1e16, 5e-324], "float"),
     "bool": (bool, [True, False], "bool"),
-    "str": (str, ["", "a", "\u00e9\u4e2d", "q'\"\\\n", "1", "2020-01-01", "UTC"], "str"),
+    "str": (str, ["", "a", "\u00e9\u4e2d", "q'\"\\\n", "1", "2020-01-01", "UTC", "l1\r\nl2\t"], "str"),
     "none": (type(None), [None], "null"),
     "any": (typing.Any, [1, "a", None, [1], {"k": [1]}], "any"),
     "bytes": (bytes, [b"", b"a", bytes(range(58)), bytes(range(256))], "str"),
@@ -84,14 +84,16 @@ LEAVES = {
     "zoneinfo": (zoneinfo.ZoneInfo, [zoneinfo.ZoneInfo("UTC"), zoneinfo.ZoneInfo("Europe/Berlin")], "str"),
     "uuid": (uuid.UUID, [uuid.UUID(int=0), uuid.UUID("12345678-1234-5678-1234-567812345678")], "str"),
     "decimal": (decimal.Decimal, [decimal.Decimal("0"), decimal.Decimal("-1.50"), decimal.Decimal("1E+3"),
-                                  decimal.Decimal("-0")], "str"),
-    "fraction": (fractions.Fraction, [fractions.Fraction(1, 3), fractions.Fraction(-7, 2), fractions.Fraction(4)], "str"),
+                                  decimal.Decimal("-0"), decimal.Decimal("1E-7"), decimal.Decimal("Infinity")], "str"),
+    "fraction": (fractions.Fraction, [fractions.Fraction(1, 3), fractions.Fraction(-7, 2), fractions.Fraction(4), fractions.Fraction(0)], "str"),
     "ipv4addr": (ipaddress.IPv4Address, [ipaddress.IPv4Address("1.2.3.4"), ipaddress.IPv4Address("0.0.0.0")], "str"),
-    "ipv6addr": (ipaddress.IPv6Address, [ipaddress.IPv6Address("::1"), ipaddress.IPv6Address("2001:db8::ff")], "str"),
+    "ipv6addr": (ipaddress.IPv6Address, [ipaddress.IPv6Address("::1"), ipaddress.IPv6Address("2001:db8::ff"),
+                                       ipaddress.IPv6Address("fe80::1%eth0"), ipaddress.IPv6Address("::ffff:1.2.3.4")], "str"),
     "ipv4net": (ipaddress.IPv4Network, [ipaddress.IPv4Network("10.0.0.0/8"), ipaddress.IPv4Network("1.2.3.4/32")], "str"),
     "ipv6net": (ipaddress.IPv6Network, [ipaddress.IPv6Network("::/64"), ipaddress.IPv6Network("2001:db8::/32")], "str"),
-    "ipv4if": (ipaddress.IPv4Interface, [ipaddress.IPv4Interface("10.1.2.3/8")], "str"),
-    "ipv6if": (ipaddress.IPv6Interface, [ipaddress.IPv6Interface("2001:db8::1/64")], "str"),
+    "ipv4if": (ipaddress.IPv4Interface, [ipaddress.IPv4Interface("10.1.2.3/8"), ipaddress.IPv4Interface("1.2.3.4/32")], "str"),
+    "ipv6if": (ipaddress.IPv6Interface, [ipaddress.IPv6Interface("2001:db8::1/64"), ipaddress.IPv6Interface("fe80::1%eth0/64"),
+                                         ipaddress.IPv6Interface("::1/128")], "str"),
     "purepath": (pathlib.PurePath, [pathlib.PurePath("a b"), pathlib.PurePath("/x/y.z"), pathlib.PurePath(".")], "str"),
     "path": (pathlib.Path, [pathlib.Path("/a/b"), pathlib.Path(".")], "str"),
     "pureposixpath": (pathlib.PurePosixPath, [pathlib.PurePosixPath("/p/q"), pathlib.PurePosixPath("r")], "str"),
